@@ -14,8 +14,56 @@ import Discv5Model.Model.Handler
 namespace Discv5.Driver
 open Discv5.H
 
+/-- Per-node driver state.  `ridMap` (model name, wire name): internal request ids are random in the
+implementation, so the harness can only name them in the order in which they first appear on the
+wire; the model draws them when they are generated (possibly never sent).  The driver therefore
+renames them in its output by first appearance, and maps them back on input. -/
+structure NodeSt where
+  cfg : Cfg
+  st : HState := {}
+  ridMap : List (Nat × Nat) := []
+  deriving Inhabited
+
 structure HandlerSt where
-  nodes : List (Nat × Cfg × HState) := []
+  nodes : List (Nat × NodeSt) := []
+
+def isInternalRid (cfg : Cfg) (r : Nat) : Bool := r ≥ 1000000 && r / 1000000 == cfg.localId
+
+def ridOut (n : NodeSt) (r : Nat) : NodeSt × Nat :=
+  if !isInternalRid n.cfg r then (n, r) else
+  match n.ridMap.find? (·.1 == r) with
+  | some e => (n, e.2)
+  | none =>
+    let w := n.cfg.localId * 1000000 + n.ridMap.length + 1
+    ({ n with ridMap := n.ridMap ++ [(r, w)] }, w)
+
+def ridIn (n : NodeSt) (r : Nat) : Nat :=
+  match n.ridMap.find? (·.2 == r) with
+  | some e => e.1
+  | none => r
+
+def msgOut (n : NodeSt) : Msg → NodeSt × Msg
+  | .request rid b => let (n', r) := ridOut n rid; (n', .request r b)
+  | .response rid rb => let (n', r) := ridOut n rid; (n', .response r rb)
+  | .undecodable => (n, .undecodable)
+
+def ctOut (n : NodeSt) : Ct → NodeSt × Ct
+  | .enc k nn ctr m ok => let (n', m') := msgOut n m; (n', .enc k nn ctr m' ok)
+  | .garbage => (n, .garbage)
+
+def outRename (n : NodeSt) : Out → NodeSt × Out
+  | .send na (.message src nn ct) => let (n', c) := ctOut n ct; (n', .send na (.message src nn c))
+  | .send na (.handshake src nn sig eph r ct) =>
+    let (n', c) := ctOut n ct; (n', .send na (.handshake src nn sig eph r c))
+  | .response na rid rb => let (n', r) := ridOut n rid; (n', .response na r rb)
+  | o => (n, o)
+
+def evRename (n : NodeSt) : Ev → Ev
+  | .dgram src (.message s nn (.enc k n2 ctr (.response rid rb) ok)) =>
+    .dgram src (.message s nn (.enc k n2 ctr (.response (ridIn n rid) rb) ok))
+  | .dgram src (.handshake s nn sig eph r (.enc k n2 ctr (.response rid rb) ok)) =>
+    .dgram src (.handshake s nn sig eph r (.enc k n2 ctr (.response (ridIn n rid) rb) ok))
+  | e => e
 
 def pAddr (s : String) : Addr :=
   match s.splitOn ":" with
@@ -145,17 +193,20 @@ def hOne (st : HandlerSt) (toks : List String) : HandlerSt × String :=
       requestRetries := nat! retries, requestTimeout := nat! timeout, sessionTtl := nat! ttl,
       sessionCap := nat! cap, listen := if listen == "-" then [] else (listen.splitOn ",").map pAddr,
       findnode0 := nat! fn0 }
-    ({ nodes := st.nodes.filter (·.1 != id) ++ [(id, cfg, {})] }, "ok")
+    ({ nodes := st.nodes.filter (·.1 != id) ++ [(id, { cfg := cfg })] }, "ok")
   | "hev" :: node :: rest =>
     let id := nat! node
     match st.nodes.find? (·.1 == id), pEv rest with
-    | some (_, cfg, s), some ev =>
-      let (s', outs) := step cfg s ev
+    | some (_, nd), some ev0 =>
+      let cfg := nd.cfg
+      let (s', outs0) := step cfg nd.st (evRename nd ev0)
+      let (nd1, outs) := outs0.foldl (fun (p : NodeSt × List Out) o =>
+        let (n', o') := outRename p.1 o; (n', p.2 ++ [o'])) ({ nd with st := s' }, [])
       -- events and datagrams leave through two channels: events first, then sends
       let isSend : Out → Bool := fun o => match o with | .send .. => true | _ => false
       let outs := outs.filter (fun o => !isSend o) ++ outs.filter isSend
       let o := if outs.isEmpty then "-" else " ".intercalate (outs.map sOut)
-      ({ nodes := st.nodes.map fun e => if e.1 == id then (id, cfg, s') else e },
+      ({ nodes := st.nodes.map fun e => if e.1 == id then (id, nd1) else e },
         s!"{o} ## {sExempt s'.exempt}")
     | _, _ => (st, "bad-op")
   | _ => (st, "bad-op")
